@@ -609,6 +609,11 @@ fn lcg_mag(bits: u64) -> BigUint {
 fn around_half(m: &BigInt) -> Vec<BigInt> {
     let h: BigInt = m / BigInt::from(2); // floor
     let mut v = vec![BigInt::one(), BigInt::from(2), &h - 1, h.clone(), &h + 1, m - 2, m - 1];
+    // within 0.1% and within 2^-20 of one half, on both sides
+    v.push(&h - &h / 1024);
+    v.push(&h + &h / 1024);
+    v.push(&h - &h / 1048576);
+    v.push(&h + &h / 1048576 + 1);
     v.retain(|f| f.is_positive() && f < m);
     v.sort();
     v.dedup();
@@ -1003,7 +1008,18 @@ fn prim_fract_closed<const B: Word>(ctx: &mut Ctx, imax: i64, kmax: usize) {
 }
 
 fn prim_fract_shape<const B: Word>(ctx: &mut Ctx) {
-    let ks = shape_ks(ctx.quick());
+    let mut ks = shape_ks(ctx.quick());
+    // very long fractions: beyond the range in which the coarse log2 pre-filter of round_fract
+    // (f32 estimates of the operands) can separate a fraction from one half
+    // (the f32 estimates are about 2 ulp wide: 0.001 at a magnitude of 2^13 bits)
+    let long: &[u64] = match B {
+        2 => &[12000, 4500, 30000],
+        3 => &[7000, 20000],
+        10 => &[3600, 1400, 9000],
+        16 => &[3000, 8000],
+        _ => &[2500],
+    };
+    ks.extend_from_slice(if ctx.quick() { &long[..1] } else { long });
     let mut ints: Vec<BigInt> = vec![];
     for i in shape_ints(B as u32) {
         if !i.is_zero() {
